@@ -25,6 +25,36 @@ import (
 	"verif/simplan"
 )
 
+// repoDir is /repo. VERIF_REPO points a background run (vp run --with-repo) at a
+// snapshot of the repository, so that changes tried out in /repo meanwhile do
+// not reach it: the harness is then built with a generated -modfile whose
+// replace directive names the snapshot.
+var repoDir = func() string {
+	if d := os.Getenv("VERIF_REPO"); d != "" {
+		return d
+	}
+	return "/repo"
+}()
+
+// altModfile writes go.alt.mod/go.alt.sum next to go.mod with the replace
+// directive redirected to repoDir, and returns its path ("" when repoDir is /repo).
+func altModfile() string {
+	if repoDir == "/repo" {
+		return ""
+	}
+	b, err := os.ReadFile(filepath.Join(verifDir, "go.mod"))
+	if err != nil {
+		die2("cannot read go.mod: %v", err)
+	}
+	alt := strings.Replace(string(b), "=> /repo", "=> "+repoDir, 1)
+	alt = strings.Replace(alt, "=> ./stubs/", "=> "+filepath.Join(verifDir, "stubs")+"/", 1)
+	mod := filepath.Join(verifDir, "go.alt.mod")
+	os.WriteFile(mod, []byte(alt), 0o644)
+	sum, _ := os.ReadFile(filepath.Join(verifDir, "go.sum"))
+	os.WriteFile(filepath.Join(verifDir, "go.alt.sum"), sum, 0o644)
+	return mod
+}
+
 // verifDir is /verif; VERIF_DIR points a background run at its own snapshot of it
 // (vp run), so that it neither reads binaries being rebuilt nor overwrites the
 // evidence of the checks in /verif.
@@ -157,7 +187,7 @@ func build(harness string, race bool) string {
 	ov := genOverlay()
 	os.MkdirAll(filepath.Join(verifDir, "bin"), 0o755)
 	// keep go.sum in step with /repo's (the replace points there)
-	if b, err := os.ReadFile("/repo/go.sum"); err == nil {
+	if b, err := os.ReadFile(filepath.Join(repoDir, "go.sum")); err == nil {
 		mine, _ := os.ReadFile(filepath.Join(verifDir, "go.sum"))
 		if !bytes.Contains(mine, b[:min(len(b), 200)]) {
 			os.WriteFile(filepath.Join(verifDir, "go.sum"), append(mine, b...), 0o644)
@@ -165,6 +195,9 @@ func build(harness string, race bool) string {
 	}
 	out := binPath(harness, race)
 	args := []string{"test", "-c", "-vet=off", "-overlay", ov, "-o", out}
+	if mf := altModfile(); mf != "" {
+		args = append(args, "-modfile="+mf)
+	}
 	if race {
 		args = append(args, "-race", "-gcflags=all=-d=checkptr=0")
 	}
@@ -924,11 +957,11 @@ type replayFile struct {
 }
 
 func repoTree() string {
-	out, err := exec.Command("git", "-C", "/repo", "rev-parse", "HEAD").Output()
+	out, err := exec.Command("git", "-C", repoDir, "rev-parse", "HEAD").Output()
 	if err != nil {
 		return "unknown"
 	}
-	d, _ := exec.Command("git", "-C", "/repo", "status", "--porcelain").Output()
+	d, _ := exec.Command("git", "-C", repoDir, "status", "--porcelain").Output()
 	s := strings.TrimSpace(string(out))
 	if len(bytes.TrimSpace(d)) > 0 {
 		s += "+dirty"
